@@ -300,52 +300,70 @@ class Holder:
         return id(self) >> 4
 
 
-def cycle_case(sink, seed, idx):
-    """spec -> (metadata | dict key | custom entry) -> ... -> spec must be collected."""
-    route = ('metadata', 'dict-key', 'entries', 'defaultdict-factory', 'original-keys')[idx % 5]
+CYCLE_ROUTES = ('metadata', 'metadata-childless', 'metadata-nested-childless', 'dict-key', 'entries', 'defaultdict-factory', 'defaultdict-factory-empty', 'original-keys',
+                'deque-maxlen-holder', 'ordereddict-key-nested', 'namedtuple-under-custom')
+
+
+def cycle_case(sink, seed, idx):  # noqa: C901
+    """spec -> (metadata | dict key | custom entry | factory) -> ... -> spec must be collected,
+    for nodes with and without children, at the root and nested."""
+    route = CYCLE_ROUTES[idx % len(CYCLE_ROUTES)]
     h = Holder()
     sentinel = U.Leaf('sentinel')
     h.sentinel = sentinel
+    ns = ''
+    Loc = None
+    fac = None
     if route == 'metadata':
         tree = [U.CSeq([U.Leaf(1)], meta=h), 2]
+    elif route == 'metadata-childless':
+        tree = U.CSeq([], meta=h)  # a node without children still owns its metadata
+    elif route == 'metadata-nested-childless':
+        tree = {'a': (U.CSeq([], meta=h), U.CList([], meta=h)), 'b': [1]}
     elif route == 'dict-key':
         tree = OrderedDict([(h, 1), ('b', [2])])
+    elif route == 'ordereddict-key-nested':
+        tree = [U.CSeq([OrderedDict([(h, OrderedDict())])]), 3]
     elif route == 'entries':
         class Loc(U.CBase):
             __slots__ = ()
 
-        optree.register_pytree_node(Loc, lambda o: (tuple(o.kids), None, (h,) * len(o.kids)), lambda m, c: Loc(c), path_entry_type=optree.GetItemEntry, namespace=f'cyc{idx}')
+        ns = f'cyc{idx}'
+        optree.register_pytree_node(Loc, lambda o: (tuple(o.kids), None, (h,) * len(o.kids)), lambda m, c: Loc(c), path_entry_type=optree.GetItemEntry, namespace=ns)
         tree = Loc([U.Leaf(1)])
-    elif route == 'defaultdict-factory':
+    elif route in ('defaultdict-factory', 'defaultdict-factory-empty'):
         fac = lambda: 0  # noqa: E731
         fac.h = h
-        tree = defaultdict(fac, {'a': 1})
+        tree = defaultdict(fac, {'a': 1}) if route == 'defaultdict-factory' else [defaultdict(fac), 1]
+    elif route == 'deque-maxlen-holder':
+        tree = (deque([U.CSeq([], meta=h)], maxlen=3), deque(maxlen=2))
+    elif route == 'namedtuple-under-custom':
+        tree = U.CMap([U.Point(U.CSeq([], meta=h), None)], meta=h, names=['p'])
     else:
         tree = {h: 1, 'zz': 2}
-    ns = f'cyc{idx}' if route == 'entries' else ''
     spec = optree.tree_structure(tree, namespace=ns)
     h.ref = spec  # close the cycle through the treespec's payload
     ws = weakref.ref(sentinel)
     wh = weakref.ref(h)
     ident = dict(gen='c14cyc', index=idx, route=route)
     del tree, spec, h, sentinel
-    if route == 'entries':
+    if Loc is not None:
         optree.unregister_pytree_node(Loc, namespace=ns)
         del Loc
-    if route == 'defaultdict-factory':
-        del fac
+    del fac
     for _ in range(3):
         gc.collect()
     sink.check(ws() is None and wh() is None, f'cycle/{route}', 'treespecs in reference cycles through their payload are reclaimed by the garbage collector', ident, lambda: (ws(), wh()))
     sink.count('cycle-probes')
-    sink.case(harness.fp('cycle', route, idx % 10), True, ident if idx < 5 else None)
+    sink.count(f'cycle-route:{route}')
+    sink.case(harness.fp('cycle', route, idx % 22), True, ident if idx < len(CYCLE_ROUTES) else None)
 
 
 def run_shard(sink, tier, seed, shard):
     i0, step = (shard or {}).get('i', 0), (shard or {}).get('n', 1)
     n_cases = harness.scale(500, 3000, tier)
     n_in = harness.scale(500, 60000, tier)
-    n_cyc = harness.scale(100, 2000, tier)
+    n_cyc = harness.scale(110, 2200, tier)
     perms = list(itertools.permutations(ACTIONS[:5])) if tier != 'quick' else None
     k = 0
     for idx in range(i0, n_cases, step):
@@ -372,4 +390,6 @@ def finalize(sink, tier, seed):
     sink.require('oracle:no operation mutates its input trees, leaf sequences or operand treespecs', 100)
     sink.require('retention-probes')
     sink.require('cycle-probes')
+    for r in CYCLE_ROUTES:
+        sink.require(f'cycle-route:{r}')
     sink.require('api:ok', 100)
